@@ -103,9 +103,9 @@ func (c ConditionFunction) Evaluate(a interface{}, b interface{}) (bool, error) 
 	}
 	switch c {
 	case ConditionEqual:
-		return reflect.DeepEqual(a, b), nil
+		return valuesEqual(x, y, a, b), nil
 	case ConditionNotEqual:
-		return !reflect.DeepEqual(a, b), nil
+		return !valuesEqual(x, y, a, b), nil
 	case ConditionIncludes:
 		switch x.Kind() {
 		case reflect.Slice:
@@ -179,6 +179,18 @@ func (c ConditionFunction) Evaluate(a interface{}, b interface{}) (bool, error) 
 	}
 	// we should never get here
 	return false, fmt.Errorf("unreachable condition")
+}
+
+// valuesEqual compares two values of the same kind. Sets are unordered and a
+// nil set or map is the same value as an empty one.
+func valuesEqual(x, y reflect.Value, a, b interface{}) bool {
+	switch x.Kind() {
+	case reflect.Slice:
+		return sliceContains(x, y) && sliceContains(y, x)
+	case reflect.Map:
+		return x.Len() == y.Len() && mapContains(x, y)
+	}
+	return reflect.DeepEqual(a, b)
 }
 
 func sliceContains(x, y reflect.Value) bool {
